@@ -145,6 +145,30 @@ def run_ctx(sv, tier, a, b, res):
                              f'get_pattern_context({p!r}, {index}): {why}')
                 else:
                     res.outcome('position-correct')
+    if (a, b) == ('a', 'a'):
+        # characters whose display width, UTF-8 length or UTF-16 length differs from 1: a column is an offset in code points within the line
+        wide = 'a\n\u65e5\u0301\t\U0001F600\u200b\r'
+        for n in range(1, 5):
+            for tup in itertools.product(wide, repeat=n):
+                p = ''.join(tup)
+                if p.isascii():
+                    continue
+                for index in range(0, len(p) + 1):
+                    if inside_break(p, index):
+                        continue
+                    try:
+                        ctx, line, col = gpc(p, index)
+                        why = judge_context(p, index, ctx, line, col)
+                    except Exception as e:
+                        why = f'raised {e!r}'
+                    res.evaluations += 1
+                    res.nontrivial += 1
+                    if why:
+                        res.fail({'layer': 'ctx', 'pattern': p, 'index': index},
+                                 {'kind': 'context', 'at_end': index == len(p), 'multiline': len(split_lines(p)) > 1, 'has_lone_cr': '\r' in p.replace('\r\n', ''),
+                                  'what': 'non-ascii:' + ' '.join(why.split(' ')[:2])}, f'get_pattern_context({p!r}, {index}): {why}')
+                    else:
+                        res.outcome('position-correct')
     for p in ('', 'a', '\n', '\r\n'):
         if (a, b) == ('a', 'a'):
             for index in range(len(p) + 1):
@@ -232,12 +256,15 @@ def run_e2e(sv, tier, i, n, res):
             sv.util.get_pattern_context = orig
 
 
-def outcome(sv, p, flags):
+DEBUG_CONTEXT = {'namespaces': {'': 'urn:d', 'o': 'urn:o'}, 'custom': {':--x': '.c, [k]', ':--y': 'a :--x'}}
+
+
+def outcome(sv, p, flags, context=False):
     sink = io.StringIO()
     try:
         with contextlib.redirect_stdout(sink), warnings.catch_warnings():
             warnings.simplefilter('ignore')
-            c = sv.compile(p, flags=flags)
+            c = sv.compile(p, flags=flags, **(DEBUG_CONTEXT if context else {}))
         return ('ok', c.selectors)
     except sv.SelectorSyntaxError as e:
         return ('SelectorSyntaxError', e.line, e.col)
@@ -255,16 +282,22 @@ def run_debug(sv, tier, i, n, res):
             if count % n != i or (tier == 'quick' and m == 3 and count % 3):
                 continue
             p = ''.join(w)
-            sv.purge()
-            a = outcome(sv, p, 0)
-            sv.purge()
-            b = outcome(sv, p, sv.DEBUG)
-            res.evaluations += 1
-            if a[0] == 'ok':
-                res.nontrivial += 1
+            for context in (False, True):
+                # second round: with a default namespace, a prefix and custom selectors in force (what DEBUG must not change includes how those are applied)
+                if context and not (':--x' in p or count % 2):
+                    continue
+                sv.purge()
+                a = outcome(sv, p, 0, context)
+                sv.purge()
+                b = outcome(sv, p, sv.DEBUG, context)
+                res.evaluations += 1
+                if a[0] == 'ok':
+                    res.nontrivial += 1
+                if a != b:
+                    break
             if a != b:
-                res.fail({'layer': 'debug', 'pattern': p}, {'kind': 'debug-changes-result', 'plain': a[0], 'debug': b[0]},
-                         f'compile({p!r}): without DEBUG {a[:1] + a[1:][:2] if a[0] != "ok" else "ok"}, with DEBUG {b[:1] + b[1:][:2] if b[0] != "ok" else "ok (different structure)"}')
+                res.fail({'layer': 'debug', 'pattern': p, 'context': context}, {'kind': 'debug-changes-result', 'plain': a[0], 'debug': b[0], 'with_maps': context},
+                         f'compile({p!r}{", namespaces=..., custom=..." if context else ""}): without DEBUG {a[:1] + a[1:][:2] if a[0] != "ok" else "ok"}, with DEBUG {b[:1] + b[1:][:2] if b[0] != "ok" else "ok (different structure)"}')
             else:
                 res.outcome('debug-same')
 
@@ -476,9 +509,9 @@ def replay(case):
             sv.util.get_pattern_context = orig
     if case['layer'] == 'debug':
         sv.purge()
-        a = outcome(sv, case['pattern'], 0)
+        a = outcome(sv, case['pattern'], 0, case.get('context', False))
         sv.purge()
-        b = outcome(sv, case['pattern'], sv.DEBUG)
+        b = outcome(sv, case['pattern'], sv.DEBUG, case.get('context', False))
         return None if a == b else ({'kind': 'debug-changes-result'}, f'{a[:3]} vs {b[:3]}')
     run_pretty_one = shard.Result()
     from soupsieve import pretty as pmod
